@@ -1449,6 +1449,23 @@ func TestVerifGC(t *testing.T) {
 type vgcPassRepo struct {
 	name, kind string
 	due        bool
+	hasAge     bool          // R name kind a<ms>: the last modification lies `age` before the tick of the pass
+	age        time.Duration // (set immediately before every pass, so the arithmetic of the window is exact)
+}
+
+// the tick interval every pass of the harness uses, and the window of the documented pass: a repository is visited
+// when it was modified since the previous tick, allowing for the grace period (and 250 ms of slack in the directory store)
+const vgcGap = time.Second
+
+func (h *vgcPH) dueSpec(age time.Duration) bool {
+	w := vgcGap
+	if h.kind == "dir" {
+		w += 250 * time.Millisecond
+	}
+	if h.conf.Storage.GC.GracePeriod > 0 {
+		w += h.conf.Storage.GC.GracePeriod
+	}
+	return age <= w
 }
 
 type vgcPH struct {
@@ -1550,6 +1567,10 @@ func (h *vgcPH) setDue(repo Repo, due bool) {
 	if !due {
 		tm = tm.Add(-1000 * time.Hour)
 	}
+	h.setTime(repo, tm)
+}
+
+func (h *vgcPH) setTime(repo Repo, tm time.Time) {
 	switch r := repo.(type) {
 	case *memRepo:
 		r.timeMod = tm
@@ -1633,7 +1654,7 @@ func (h *vgcPH) addRepo(name, kind string, due bool) error {
 		}
 		dr.timeMod = tm
 	}
-	h.repos = append(h.repos, &vgcPassRepo{name, kind, due})
+	h.repos = append(h.repos, &vgcPassRepo{name: name, kind: kind, due: due})
 	return nil
 }
 
@@ -1775,7 +1796,19 @@ func (h *vgcPH) restore(sn map[string]*vgcRepoSnap, bak string) {
 
 func (h *vgcPH) runPass() error {
 	cur := time.Now()
-	prev := cur.Add(-time.Second)
+	prev := cur.Add(-vgcGap)
+	for _, pr := range h.repos {
+		if !pr.hasAge {
+			continue
+		}
+		if repo, err := h.repoOf(pr.name); err == nil {
+			if dr, ok := repo.(*dirRepo); ok && pr.kind == "corrupt" {
+				dr.timeMod = cur.Add(-pr.age)
+			} else {
+				h.setTime(repo, cur.Add(-pr.age))
+			}
+		}
+	}
 	switch st := h.st.(type) {
 	case *mem:
 		return st.gc(cur, prev)
@@ -1892,9 +1925,21 @@ func (h *vgcPH) apply(line string) string {
 		if t[2] != "healthy" && t[2] != "corrupt" && t[2] != "empty" && t[2] != "removed" {
 			return "error unknown kind " + t[2]
 		}
-		if err := h.addRepo(t[1], t[2], t[3] == "1"); err != nil {
+		due := t[3] == "1"
+		var age time.Duration
+		hasAge := false
+		if strings.HasPrefix(t[3], "a") {
+			ms, err := strconv.Atoi(t[3][1:])
+			if err != nil || ms < 0 {
+				return "bad-op"
+			}
+			age, hasAge = time.Duration(ms)*time.Millisecond, true
+			due = h.dueSpec(age)
+		}
+		if err := h.addRepo(t[1], t[2], due); err != nil {
 			return "error " + err.Error()
 		}
+		h.repos[len(h.repos)-1].hasAge, h.repos[len(h.repos)-1].age = hasAge, age
 		return "ok"
 	case "G":
 		if len(t) != 2 {
@@ -1946,11 +1991,16 @@ func vgcGenPass(r *rand.Rand, c int, emit func(string)) {
 		name := "r" + strconv.Itoa(i)
 		names = append(names, name)
 		kind := []string{"healthy", "healthy", "healthy", "empty", "removed", "corrupt"}[r.Intn(6)]
-		due := 1
+		due := "1"
 		if r.Intn(5) == 0 {
-			due = 0
+			due = "0"
 		}
-		emit(fmt.Sprintf("R %s %s %d", name, kind, due))
+		if r.Intn(2) == 0 {
+			// an exact age around the edges of the window: gap 1000 ms, 250 ms slack (dir), grace 3 600 000 ms when enabled
+			grace := 3600000 * bit(3)
+			due = "a" + strconv.Itoa([]int{0, 850, 1100, grace + 850, grace + 1100, grace + 1400, 10 * (grace + 1250)}[r.Intn(7)])
+		}
+		emit(fmt.Sprintf("R %s %s %s", name, kind, due))
 	}
 	emit("PASS")
 	if r.Intn(2) == 0 {
